@@ -391,6 +391,10 @@ func (fd *Client) Query(ctx context.Context, input *dynamodb.QueryInput, opt ...
 		return nil, fd.forceFailureErr
 	}
 
+	if strings.TrimSpace(aws.ToString(input.KeyConditionExpression)) == "" {
+		return nil, &smithy.GenericAPIError{Code: "ValidationException", Message: "Either the KeyConditions or KeyConditionExpression parameter must be specified in the request."}
+	}
+
 	err := validateExpressionAttributes(input.ExpressionAttributeNames, input.ExpressionAttributeValues, aws.ToString(input.KeyConditionExpression), aws.ToString(input.FilterExpression), aws.ToString(input.ProjectionExpression))
 	if err != nil {
 		return nil, mapKnownError(err)
